@@ -90,6 +90,7 @@ def run(ctx):
             for fl in res["fails"]:
                 fl["features"]["backend"] = be
                 ctx.violation(fl)
+    run_factor_sets(ctx, rng, hseeds)
     # ---- RECORD -> VALIDATE
     n = 400 if ctx.thorough else 80
     pl = [(hs, {"seed": ctx.seed * 7919 + hs, "n": n // len(hseeds), "tid0": i * 100000}) for i, hs in enumerate(hseeds)]
@@ -97,6 +98,46 @@ def run(ctx):
     for res in run_workers(ctx, "c04", "record", pl):
         traces += res["traces"]
     validate(ctx, traces)
+
+
+def make_fs_pool(rng, pid):
+    vs = VARS[:3]
+    dom = {v: [f"s{j}" for j in range(rng.choice([2, 2, 3]))] for v in vs}
+
+    def fac():
+        scope = sorted(rng.sample(vs, rng.choice([1, 2, 2, 3])))
+        return {"scope": scope, "cells": [{"a": dict(zip(scope, combo)), "n": rng.randint(1, 4), "d": 1}
+                                          for combo in itertools.product(*[dom[v] for v in scope])]}
+    sets = [[fac() for _ in range(rng.choice([1, 2]))] for _ in range(2)]
+    if rng.random() < 0.5:       # a member present in both sets (equal content)
+        sets[1].append(json.loads(json.dumps(sets[0][0])))
+    return {"id": pid, "dom": dom, "sets": sets}
+
+
+def run_factor_sets(ctx, rng, hseeds):
+    """FactorSet (Gen_C04S): every behaviour of depth 2 and sampled behaviours of depth 4, the projection of ALL sets after every step"""
+    pools = [make_fs_pool(rng, i + 1) for i in range(4 if ctx.thorough else 2)]
+    f = os.path.join(ctx.work, "fs_pools.json")
+    with open(f, "w") as fh:
+        json.dump(pools, fh)
+    cfg = "CONSTANT MaxDepth = %d\nCONSTANT MaxObjs = %d\nCONSTANT NSim = %d\nINIT Init\nNEXT Next\nINVARIANT LawMargSingle\nINVARIANT LawMargOrder\nINVARIANT Emit\n"
+    behs = list(ctx.tlc("Gen_C04S", cfg % (2, 4, 0), env={"INST_FILE": f}, tag="GenS_depth2", coverage=True, timeout=3600).prints)
+    behs += ctx.tlc("Gen_C04S", cfg % (4, 5, 600 if ctx.thorough else 150), env={"INST_FILE": f}, tag="GenS_sampled", seed=ctx.seed + 5).prints
+    uniq = {json.dumps([b["pool"], [st["o"] for st in b["steps"]]], sort_keys=True): b for b in behs}
+    for k in uniq:
+        ctx.count("fs" + k, nontrivial=True, n=0)
+    behs = list(uniq.values())
+    if not behs:
+        raise Machinery("Gen_C04S produced no behaviours")
+    pl = []
+    for hs in hseeds:
+        for j, ch in enumerate(chunks(behs, 16 // len(hseeds))):
+            pl.append((hs, {"pools": pools, "behs": ch, "seed": ctx.seed * 1000 + hs * 17 + j}))
+    for res in run_workers(ctx, "c04", "replay_fs", pl):
+        ctx.traces += res["n"]
+        ctx.evaluations += res["calls"]
+        for fl in res["fails"]:
+            ctx.violation(fl)
 
 
 def validate(ctx, traces):
@@ -129,6 +170,9 @@ def validate(ctx, traces):
 
 def replay(ctx, rec):
     case = rec["case"]
+    if case["kind"] == "fs":
+        res = run_workers(ctx, "c04", "replay_fs", [(case["hashseed"], {"pools": [case["pool"]], "behs": [case["beh"]], "seed": case["seed"]})])[0]
+        return res["fails"][:1] or None
     if case["kind"] == "gen":
         res = run_workers(ctx, "c04", "replay_gen", [(case["hashseed"], {"pools": [case["pool"]], "behs": [case["beh"]], "seed": case["seed"]})],
                           backend=rec["features"].get("backend", "numpy"))[0]
@@ -171,6 +215,31 @@ class FConc:
         self.sn = {v: state_names(dom[v], rng, rng.choice(["str", "int", "range", "perm", "tuple", "mixed"]) if state_kind == "any" else state_kind)
                    for v in dom}
         self.dom = dom
+        self.rng = rng
+
+
+def _permuted(f, rng):
+    """the same function on named assignments, written down with another axis order and another ORDER OF THE STATES of every variable
+    (rotations: for >= 3 states a permutation that is not its own inverse)"""
+    import numpy as np
+    from pgmpy.factors.discrete import DiscreteFactor
+    vs = list(f.variables)
+    if not vs:
+        return f
+    vals = f.values
+    vals = np.asarray(vals.detach().cpu().numpy() if hasattr(vals, "detach") else vals, dtype=float)
+    order = vs[:]
+    rng.shuffle(order)
+    vals = np.transpose(vals, [vs.index(v) for v in order])
+    sn = {}
+    for ax, v in enumerate(order):
+        names = list(f.state_names[v])
+        k = len(names)
+        sh = rng.randrange(1, k) if k > 1 else 0
+        perm = [(p + sh) % k for p in range(k)]          # new position p holds the old state perm[p]
+        vals = np.take(vals, perm, axis=ax)
+        sn[v] = [names[q] for q in perm]
+    return DiscreteFactor(order, [len(sn[v]) for v in order], vals.copy(), state_names=sn)
 
 
 def build_factor(jf, conc, rng):
@@ -237,7 +306,11 @@ def do_op(objs, o, conc):
                 f.values[tuple(f.name_to_no[v][lab[v]] for v in f.variables)] = float(o["c"])
             r, ip = None, True
         elif op == "eq":
-            return bool(f == objs[o["j"] - 1]), None
+            g = objs[o["j"] - 1]
+            verdicts = [bool(f == g), bool(f == _permuted(g, conc.rng)), bool(_permuted(f, conc.rng) == g), bool(g == f)]
+            if len(set(verdicts)) > 1:      # equality is a relation between FUNCTIONS on named assignments
+                return "depends_on_state_or_axis_order:" + repr(verdicts), None
+            return verdicts[0], None
         else:
             raise ValueError(op)
     except Exception as ex:  # noqa
@@ -311,6 +384,84 @@ def replay_gen(payload):
                     break
             if bad:
                 fail(bad[0], si + 1, bad[1], bad[2], o)
+                break
+    return {"n": len(payload["behs"]), "calls": ncalls, "fails": fails[:40]}
+
+
+def replay_fs(payload):
+    """Gen_C04S behaviours on pgmpy.factors.FactorSet objects; after every step ALL live sets are compared (members by named assignment)"""
+    from pgmpy.factors import FactorSet
+    hs = int(os.environ.get("PYTHONHASHSEED", "0"))
+    TOL = 1e-9
+    pools = {p["id"]: p for p in payload["pools"]}
+    fails, ncalls = [], 0
+    for beh in payload["behs"]:
+        pool = pools[beh["pool"]]
+        rng = random.Random(f"{payload['seed']}|{pool['id']}|{[st['o'] for st in beh['steps']]}")
+        conc = FConc(pool["dom"], rng)
+        objs = [FactorSet(*[build_factor(jf, conc, rng) for jf in js]) for js in pool["sets"]]
+
+        def fail(clause, step, obs, exp, o):
+            fails.append({"api": "FactorSet." + o["op"], "clause": clause, "features": {"inplace": o["inplace"]},
+                          "case": {"kind": "fs", "pool": pool, "beh": beh, "seed": payload["seed"], "hashseed": hs},
+                          "observed": obs, "expected": exp, "step": step})
+
+        def members(fs):
+            out = []
+            for f in fs.get_factors():
+                toks, vals, names_ok = project(f, conc)
+                out.append((toks, vals, names_ok))
+            return out
+
+        def matches(got, exp):
+            """the set of members (value semantics) equals the expected set"""
+            def same(m, e):
+                if m[0] != sorted(e["scope"]):
+                    return False
+                for c in e["cells"]:
+                    x = m[1][json.dumps(c["a"] if isinstance(c["a"], dict) else {}, sort_keys=True)]
+                    n, d = c["v"]
+                    if not (abs(x - n / d) <= TOL * max(1.0, abs(n / d))):
+                        return False
+                return True
+            return all(any(same(m, e) for e in exp) for m in got) and all(any(same(m, e) for m in got) for e in exp)
+        for si, st in enumerate(beh["steps"]):
+            o = st["o"]
+            ncalls += 1
+            tgt = objs[o["i"] - 1]
+            try:
+                if o["op"] == "product":
+                    r = tgt.product(objs[o["j"] - 1], inplace=o["inplace"]) if rng.random() < 0.7 or o["inplace"] else tgt * objs[o["j"] - 1]
+                elif o["op"] == "divide":
+                    r = tgt.divide(objs[o["j"] - 1], inplace=o["inplace"]) if rng.random() < 0.7 or o["inplace"] else tgt / objs[o["j"] - 1]
+                elif o["op"] == "marginalize":
+                    r = tgt.marginalize([conc.vn[v] for v in sorted(o["vars"])], inplace=o["inplace"])
+                else:
+                    r = tgt.copy()
+            except Exception as ex:  # noqa
+                fail("raises", si + 1, repr(ex)[:200], None, o)
+                break
+            if not (o["inplace"] and o["op"] != "copy"):
+                objs.append(r)
+            if len(objs) != len(st["sets"]):
+                fail("object_count", si + 1, len(objs), len(st["sets"]), o)
+                break
+            bad = None
+            new_idx = o["i"] - 1 if (o["inplace"] and o["op"] != "copy") else len(objs) - 1
+            for k, (fs, exp) in enumerate(zip(objs, st["sets"])):
+                try:
+                    got = members(fs)
+                except Exception as ex:  # noqa
+                    bad = (("result" if k == new_idx else "frame") + ".unreadable", {"obj": k + 1, "exc": repr(ex)[:200]})
+                    break
+                if any(not m[2] for m in got):
+                    bad = (("result" if k == new_idx else "frame") + ".state_names", {"obj": k + 1})
+                    break
+                if not matches(got, exp):
+                    bad = (("result" if k == new_idx else "frame") + ".members", {"obj": k + 1, "got": [[m[0], sorted(m[1].items())[:4]] for m in got]})
+                    break
+            if bad:
+                fail(bad[0], si + 1, bad[1], None, o)
                 break
     return {"n": len(payload["behs"]), "calls": ncalls, "fails": fails[:40]}
 
